@@ -367,4 +367,204 @@ def flowExecIR (fuel : Nat) (f : Func) (env : Flyt.Env) (fid : NodeId) (start : 
   | some (rs, _, w) => (flowOutcomeOf rs).map fun o => (w.evs, w.st, o)
   | none => none
 
+/-! ### `runBatch` vs the model's `runBatch` -/
+
+def readWindow (h : Heap) : GV → Option (List Result)
+  | .slice a off n => (h[a]?).map fun cell => (cell.drop off).take n
+  | .nil => some []
+  | _ => none
+
+/-- overwrite the window `[off, off+n)` of cell `a` with `l` (which has `n` elements) -/
+def writeWindow (h : Heap) (a off : Nat) (l : List Result) : Heap :=
+  match h[a]? with
+  | some cell => h.set a (cell.take off ++ l ++ cell.drop (off + l.length))
+  | none => h
+
+/-- world of `runBatch` for a batch node: the user's batch prep / post callbacks, the node's batch settings, and the two
+    executors as the model's `itemsSeq` / `itemsSerialPool` (their own refinements are separate theorems). The error-handling
+    mode and the concurrency the executors work with are the ones `runBatch` PASSES them. -/
+def batchWorld (kind : CtxKind) (n : NodeId) (v : Nat) (cfg : BatchCfg) (scr : BatchScript) : World SeqW where
+  call fn args h w :=
+    match fn, args with
+    | "ToSlice", [_] =>
+      (match scr.prep.res with
+       | .ok l =>
+         (match cfg.shape with
+          | .typed => some ([.anys l], h, w)
+          | .single => some ([.anys (l.take 1)], h, w)
+          | .nilv => some ([.anys []], h, w)
+          | _ => none)
+       | _ => none)
+    | "runBatchSequential", [_, _, its, .slice ra roff rn, .str eh] =>
+      (match readWindow h its with
+       | some items =>
+         let r := itemsSeq kind n v { cfg with stop := eh == "stop" } scr items 0 w.ctx
+         if r.2.2.length = rn then some ([], writeWindow h ra roff r.2.2, { evs := w.evs ++ r.1, ctx := r.2.1 }) else none
+       | none => none)
+    | "runBatchConcurrent", [_, _, its, .slice ra roff rn, .int c, .str eh] =>
+      (match readWindow h its with
+       | some items =>
+         let r := itemsSerialPool kind n v { cfg with stop := eh == "stop", conc := c.toNat } scr items 0 false w.ctx
+         if r.2.2.length = rn then some ([], writeWindow h ra roff r.2.2, { evs := w.evs ++ r.1, ctx := r.2.1 }) else none
+       | none => none)
+    | _, _ => none
+  mcall recv m args h w :=
+    match recv with
+    | .node _ =>
+      if m == "GetBatchConcurrency" then some ([.int cfg.conc], h, w)
+      else if m == "GetBatchErrorHandling" then some ([.str (if cfg.stop then "stop" else "continue")], h, w)
+      else if m == "Prep" then
+        match args with
+        | [_, sh] =>
+          (match storeIdOf sh with
+           | none => none
+           | some sid =>
+             let w' : SeqW := { evs := w.evs ++ [.bprep n v sid], ctx := w.ctx.after kind scr.prep.cancels }
+             match scr.prep.res with
+             | .error e => some ([.nil, .err (.user e)], h, w')
+             | .ok l =>
+               match cfg.shape with
+               | .results => some ([.slice h.length 0 l.length, .nil], h ++ [l.map toResult], w')
+               | .anys => some ([.anys l, .nil], h, w')
+               | .typed => some ([.ref "typed" 0, .nil], h, w')
+               | .single => some ([.ref "single" 0, .nil], h, w')
+               | .nilv => some ([.nil, .nil], h, w'))
+        | _ => none
+      else if m == "Post" then
+        match args with
+        | [_, sh, its, res] =>
+          if cfg.hasPost then
+            match storeIdOf sh, readWindow h its, readWindow h res with
+            | some sid, some items, some slots =>
+              let w' : SeqW := { evs := w.evs ++ [.bpost n v sid (items.map Result.box) (slots.map Result.box)],
+                                 ctx := w.ctx.after kind scr.post.cancels }
+              (match scr.post.res with
+               | .ok a => some ([.str a, .nil], h, w')
+               | .error e => some ([.str (scr.post.junk.getD ""), .err (.user e)], h, w'))
+            | _, _, _ => none
+          else some ([.str defaultAction, .nil], h, w)
+        | _ => none
+      else none
+    | _ => none
+  assert x ty _ :=
+    match x with
+    | .node _ =>
+      if ty == "*BaseNode" ∨ ty == "*CustomNode" then some (.nil, false)
+      else if ty == "*BatchNode" then some (x, true)
+      else none
+    | .slice .. => if ty == "[]Result" then some (x, true) else if ty == "[]any" then some (.nil, false) else none
+    | .anys _ => if ty == "[]any" then some (x, true) else if ty == "[]Result" then some (.nil, false) else none
+    | .ref _ _ => if ty == "[]any" ∨ ty == "[]Result" then some (.nil, false) else none
+    | .nil => if ty == "[]any" ∨ ty == "[]Result" then some (.nil, false) else none
+    | _ => none
+  field _ _ _ := none
+  mapIndex _ _ _ := none
+  select _ _ := none
+  global x := if x == "DefaultAction" then some (.str defaultAction) else none
+
+def runBatchIR (fuel : Nat) (f : Func) (kind : CtxKind) (n : NodeId) (v : Nat) (sid : StoreId) (cfg : BatchCfg)
+    (scr : BatchScript) (ctx : Ctx) : Option (List Ev × Ctx × Outcome) :=
+  match callFunc (batchWorld kind n v cfg scr) fuel f [ctxH, .node n, storeH sid] [] ⟨[], ctx⟩ with
+  | some (rs, _, w) => (outcomeOf rs).map fun o => (w.evs, w.ctx, o)
+  | none => none
+
+/-! ### `Run` on a flow node, and `Run`'s dispatch to `runBatch` -/
+
+/-- world of `Run(ctx, flow, shared)`: `Flow.Prep` hands the store through, `Flow.Exec` is the model's `flowLoop`
+    (refinement: `FlowExec_refines_flowLoop`), `Flow.Post` returns the action it is handed (an `Action` travelling as `any`)
+    or the default action; a flow built by `NewFlow` embeds a default `BaseNode`: budget 1, no wait, pass-through fallback. -/
+def flowNodeWorld (env : Flyt.Env) (start : Option NodeId) (tbl : Table) : World FlowW where
+  call _ _ _ _ := none
+  mcall recv m args h w :=
+    match recv with
+    | .ref "ctx" _ => if m == "Err" then some ([ctxErrGV w.st.ctx], h, w) else none
+    | .node _ =>
+      if m == "GetMaxRetries" then some ([.int 1], h, w)
+      else if m == "GetWait" then some ([.int 0], h, w)
+      else if m == "Prep" then
+        match args with
+        | [_, sh] => some ([sh, .nil], h, w)
+        | _ => none
+      else if m == "Exec" then
+        match args with
+        | [_, sh] =>
+          (match storeIdOf sh, start with
+           | some sid, some s =>
+             let r := flowLoop env w.mfuel tbl s sid w.st
+             let w' : FlowW := { evs := w.evs ++ r.1, st := r.2.1, mfuel := w.mfuel }
+             (match r.2.2 with
+              | .ok a => some ([.str a, .nil], h, w')
+              | .err e => some ([.nil, .err e], h, w')
+              | _ => none)
+           | some _, none => some ([.nil, .err (.fw .noStart)], h, w)
+           | none, _ => none)
+        | _ => none
+      else if m == "ExecFallback" then
+        match args with
+        | [_, .err e] => some ([.nil, .err e], h, w)
+        | _ => none
+      else if m == "Post" then
+        match args with
+        | [_, _, _, .str a] => some ([.str a, .nil], h, w)
+        | [_, _, _, _] => some ([.str defaultAction, .nil], h, w)
+        | _ => none
+      else none
+    | _ => none
+  assert x ty _ :=
+    match x with
+    | .node _ =>
+      if ty == "RetryableNode" ∨ ty == "FallbackNode" then some (x, true)
+      else if ty == "*BatchNode" ∨ ty == "*BatchNodeBuilder" then some (.nil, false)
+      else none
+    | _ => none
+  field _ _ _ := none
+  mapIndex _ _ _ := none
+  select _ _ := none
+  global x := if x == "DefaultAction" then some (.str defaultAction) else none
+
+def runFlowNodeIR (fuel : Nat) (f : Func) (env : Flyt.Env) (fid : NodeId) (start : Option NodeId) (ops : List ConnOp)
+    (mfuel : Nat) (sid : StoreId) (st : RunSt) : Option (List Ev × RunSt × Outcome) :=
+  match callFunc (flowNodeWorld env start (buildTable ops)) fuel f [ctxH, .node fid, storeH sid] [] ⟨[], st, mfuel⟩ with
+  | some (rs, _, w) => (outcomeOf rs).map fun o => (w.evs, w.st, o)
+  | none => none
+
+/-- world of `Run` on a batch node (`viaBuilder`: the node is the `*BatchNodeBuilder` that `NewBatchNode` returns, else the
+    bare `*BatchNode`): all it may do is hand over to `runBatch` — the model's `runBatch` (refinement: `runBatch_refines`). -/
+def batchDispatchWorld (kind : CtxKind) (n : NodeId) (v : Nat) (cfg : BatchCfg) (scr : BatchScript) (viaBuilder : Bool) :
+    World SeqW where
+  call fn args h w :=
+    match fn, args with
+    | "runBatch", [_, nd, sh] =>
+      (match storeIdOf sh, (match nd with | .ref "batchnode" _ => true | .node _ => !viaBuilder | _ => false) with
+       | some sid, true =>
+         let r := Flyt.runBatch kind n v sid cfg scr w.ctx
+         let w' : SeqW := { evs := w.evs ++ r.1, ctx := r.2.1 }
+         (match r.2.2 with
+          | .ok a => some ([.str a, .nil], h, w')
+          | .err e => some ([.str "", .err e], h, w')
+          | _ => none)
+       | _, _ => none)
+    | _, _ => none
+  mcall _ _ _ _ _ := none
+  assert x ty _ :=
+    match x with
+    | .node i =>
+      if ty == "*BatchNode" then (if viaBuilder then some (.nil, false) else some (.ref "batchnode" i, true))
+      else if ty == "*BatchNodeBuilder" then (if viaBuilder then some (x, true) else some (.nil, false))
+      else none
+    | _ => none
+  field x f _ :=
+    match x with
+    | .node i => if f == "BatchNode" then some (.ref "batchnode" i) else none
+    | _ => none
+  mapIndex _ _ _ := none
+  select _ _ := none
+  global _ := none
+
+def runBatchNodeIR (fuel : Nat) (f : Func) (kind : CtxKind) (n : NodeId) (v : Nat) (sid : StoreId) (cfg : BatchCfg)
+    (scr : BatchScript) (viaBuilder : Bool) (ctx : Ctx) : Option (List Ev × Ctx × Outcome) :=
+  match callFunc (batchDispatchWorld kind n v cfg scr viaBuilder) fuel f [ctxH, .node n, storeH sid] [] ⟨[], ctx⟩ with
+  | some (rs, _, w) => (outcomeOf rs).map fun o => (w.evs, w.ctx, o)
+  | none => none
+
 end Flyt.GoIR
